@@ -446,6 +446,10 @@ class OpsMixin:
         if op == "ungroup":
             return M.ungroup(m, new_id)
         if op == "summarize":
+            if any(m.name_of_tok(t) is None for t in m.grouping):
+                # grouped by a hidden column: outside the defined domain (DESIGN.md 12.3; the
+                # library raises KeyError here) - the names of the result are not specified
+                raise Skip("summarize of a table grouped by a hidden column")
             items = []
             for j, (name, rec) in enumerate(vs["cols"]):
                 tok = X.expr_tok(rec, cx, f"{new_id}.{j}", in_summarize=True)
